@@ -49,7 +49,7 @@ def cfg(tier):
 
 
 def budget(tier):
-    return 1500 if tier == "quick" else 40000
+    return 2500 if tier == "quick" else 40000
 
 
 @st.composite
